@@ -3,8 +3,9 @@ From Coq Require Import ZArith List Bool String Arith.
 From Valida Require Import Taint.
 From Valida.Gen Require Import ParsersGen.
 From Valida.Proofs Require Import TaintProof.
-From Valida Require Import Py Lang Defs Cond Dsl Path Cast Str SpecDefs RuleDefs Rule Spec SpecIO Eq Inst RunSpec.
-From Valida.Proofs Require Import C14Proof C16ReparseProof.
+From Valida Require Import Py Lang Defs Cond Dsl Path Cast Str SpecDefs RuleDefs Rule Spec SpecIO Eq Inst RunSpec SchemaSpec.
+From Coq Require Import Sorting.Permutation Sorting.Sorted.
+From Valida.Proofs Require Import C14Proof C16ReparseProof C16SchemaProof.
 Import ListNotations.
 Local Open Scope string_scope.
 Local Open Scope list_scope.
@@ -93,6 +94,21 @@ Theorem C16_reparse_rule_spec : forall spec rt ex r rt' ex' r', wf_val spec = tr
   rule_eqb T r' r (rx_cast_given ex') (rx_cast_given ex) = true.
 Proof. exact C16_reparse_rule. Qed.
 
+(* schema lists: Schema.from_json_like(l) / Schema(Schema.init_rules(l)) parsed twice are == (Schema.__eq__: the sorted
+   rule lists element-wise), for every list of rule specs *)
+Theorem C16_reparse_schema_spec_list : forall l s s', wf_val (VList l) = true ->
+  schema_of_specs l = Ok s -> schema_of_specs l = Ok s' -> schema_objs_eqb s' s = true.
+Proof. exact C16_reparse_schema_list. Qed.
+
+(* ... and the schema holds exactly the parsed rules, in order of path length, rules of one length in spec order;
+   sorting again (validate, add_schema) changes nothing *)
+Theorem C16_schema_rules_order : forall l s, schema_of_specs l = Ok s ->
+  exists rs, mapM robj_from_spec l = Ok rs /\ Permutation s rs /\ StronglySorted ple s /\
+             forall n, filter (fun y => Nat.eqb (plen y) n) s = filter (fun y => Nat.eqb (plen y) n) rs.
+Proof. exact C16_schema_list_order. Qed.
+Theorem C16_schema_sort_idempotent : forall l, sort_rules (sort_rules l) = sort_rules l.
+Proof. exact sort_rules_idempotent. Qed.
+
 (* parsing preserves well-formedness (what the above rests on) *)
 Theorem C16_parsed_condition_well_formed : forall spec tm c, wf_val spec = true ->
   cond1_from_spec T X spec = Ok (tm, c) -> cond1_ok wf_val T c /\ path_args_buildable T c.
@@ -100,3 +116,4 @@ Proof. exact cond_from_spec_ok. Qed.
 
 Print Assumptions C16_reparse_condition. Print Assumptions C16_reparse_part_spec. Print Assumptions C16_reparse_path_spec.
 Print Assumptions C16_reparse_part_spec_list. Print Assumptions C16_reparse_rule_spec. Print Assumptions C16_parsed_condition_well_formed.
+Print Assumptions C16_reparse_schema_spec_list. Print Assumptions C16_schema_rules_order. Print Assumptions C16_schema_sort_idempotent.
